@@ -45,6 +45,8 @@ EXTRA = [
     ["ZSCORE", "z", "a"], ["ZRANGE", "z", "0", "-1"], ["ZPOPMIN", "z"], ["ZCOUNT", "z", "0", "5"],
     ["FLUSHALL"], ["INCR", "other"], ["LPUSH", "other", "a"], ["NOSUCHCOMMAND"], ["INCR"],
 ]
+RANDOM_WORDS = {"RANDOMKEY", "ZRANDMEMBER", "SRANDMEMBER", "HRANDFIELD", "SPOP"}
+UNMODELLED = [["RANDOMKEY"], ["TOUCH", "n", "s"], ["OBJECTFREQ", "n"], ["OBJECTIDLETIME", "n"], ["ZRANDMEMBER", "z"]]
 UNORDERED = {"SMEMBERS": False, "HGETALL": True, "HKEYS": False, "HVALS": False, "SUNION": False, "SINTER": False, "SDIFF": False}
 
 def hexargs(argv):
@@ -85,7 +87,8 @@ class Job:
     def text(self, extra=None, more=()):
         return "\n".join([self.header(extra)] + self.setup_lines() + self.thread_lines() + list(more) + ["E"]) + "\n"
     def has_api(self):
-        return any(t[0] == "api" for t in self.threads)
+        """threads the model of the lock protocol cannot replay (embedded-API calls, commands without a model handler)"""
+        return any(t[0] == "api" or (t[0] == "cmd" and t[1] and [str(t[1][0]).upper()] + [] in [[u[0]] for u in UNMODELLED]) for t in self.threads)
     def describe(self):
         return [(" ".join(str(x) for x in t[1]) if t[0] in ("cmd", "api") else t[0] + ("" if len(t) < 2 else " %s" % t[1])) for t in self.threads]
     def to_json(self):
@@ -147,6 +150,10 @@ def outcome_eq(job, tid, a, b):
     if a == b:
         return True
     t = job.threads[tid]
+    if t[0] == "cmd" and t[1] and t[1][0].upper() in RANDOM_WORDS:
+        # a legitimate random choice: only the shape (error / nil / bulk / array) is compared
+        shape = lambda o: "-" if o in ("-", "!") else ("_" if o == "_" else o[:1])
+        return shape(a) == shape(b)
     if a.startswith("snap:") or b.startswith("snap:"):
         f = lambda o: norm_digest(" " + o[5:].replace("_", " "), with_mem=False).strip()
         return a[:5] == b[:5] and f(a) == f(b)
@@ -220,6 +227,17 @@ class C05(PropertyCheck):
         for i, a in enumerate([["swapdbs", 0, 1], ["swapdbs", 1, 2], ["flush", 0], ["flush", -1]]):
             for k, b in enumerate([["SELECT", "1"], ["SWAPDB", "0", "1"], ["SET", "k", "v"], ["GET", "n"], ["FLUSHDB"], ["INCR", "n"]]):
                 jobs.append(Job("api%d_%d" % (i, k), [("api", a), ("cmd", b)]))
+        # an expired entry still in the store (key e): commands that read it through getValues directly against writers of the
+        # same key — whatever is deferred to the goroutines started by the read must not undo the later write
+        for i, a in enumerate([["MGET", "e", "n"], ["INCR", "e"], ["RENAME", "e", "x"], ["DECRBY", "e", "2"], ["GETDEL", "e"], ["LPUSH", "e", "q"]]):
+            for k, b in enumerate([["SET", "e", "new"], ["MSET", "e", "1", "s", "2"], ["INCR", "e"], ["APPEND", "e", "x"]]):
+                jobs.append(Job("ex%d_%d" % (i, k), [("cmd", a), ("cmd", b)]))
+        # commands without a model handler (judged by the serial-order oracle and the no-thread-blocked-by-a-parked-one rule only)
+        # next to the actors that take the store lock without the command lock
+        for i, a in enumerate(UNMODELLED):
+            jobs.append(Job("um%d_s" % i, [("cmd", a), ("sweep", 0)]))
+            jobs.append(Job("um%d_c" % i, [("cmd", a), ("copy",)]))
+            jobs.append(Job("um%d_w" % i, [("cmd", a), ("cmd", ["SET", "n", "9"])]))
         # three commands
         trip = list(itertools.combinations(range(len(core)), 3))
         rng.shuffle(trip)
